@@ -758,7 +758,12 @@ impl World {
             }
         }
         // stall: context task pending, not woken, yet the transport has something for it
-        if self.ctx_active() && self.ctx_polled && !is_set(&self.ctx_flag) {
+        // (not while the write half has blocked the task in the middle of a packet: it cannot read before that write is done)
+        let write_blocked = {
+            let w = self.wr.0.borrow();
+            w.block_after == Some(0) && w.wwaker.is_some()
+        };
+        if self.ctx_active() && self.ctx_polled && !is_set(&self.ctx_flag) && !write_blocked {
             let r = self.rd.0.borrow();
             if !r.segs.is_empty() || r.eof || r.err {
                 drop(r);
